@@ -243,3 +243,39 @@ fn bounded_pair_with_ranker_long_tail() {
         }
     }
 }
+
+// quick-tier variant of the long-needle check: concrete default ranker, symbolic tail bytes and length
+#[kani::proof]
+#[kani::unwind(262)]
+fn bounded_pair_default_ranker_long_tail() {
+    let mut nb = [b'a'; 260];
+    let t: [u8; 6] = kani::any();
+    let mut j = 0;
+    while j < 6 {
+        nb[253 + j] = t[j];
+        j += 1;
+    }
+    let nl: usize = kani::any();
+    kani::assume(254 <= nl && nl <= 260);
+    match crate::arch::all::packedpair::Pair::new(&nb[..nl]) {
+        None => assert!(false),
+        Some(p) => {
+            assert!(p.index1() != p.index2());
+            assert!((p.index1() as usize) < nl && (p.index2() as usize) < nl);
+            assert!(p.index1() <= 254 && p.index2() <= 254);
+        }
+    }
+}
+#[kani::proof]
+#[kani::unwind(6)]
+#[kani::stub(crate::arch::x86_64::avx2::packedpair::Finder::is_available, avail_false)]
+#[kani::stub(crate::arch::x86_64::sse2::packedpair::Finder::is_available, avail_false)]
+fn bounded_glue_fwd_n2_h4() {
+    let hb: [u8; 4] = kani::any();
+    let hl: usize = kani::any();
+    kani::assume(hl <= 4);
+    let h = &hb[..hl];
+    let n: [u8; 2] = kani::any();
+    let f = crate::memmem::Finder::new(&n);
+    assert!(f.find(h) == naive_find(h, &n));
+}
